@@ -112,3 +112,9 @@ CHECKS["C19"] = (
     "Held on the settings observed: every generated object (restrictions / reorderings of the defaults, with injected out-of-domain values) is unchanged by validate() whether it returns or raises, validate(validate(x)) == validate(x), every algorithm named by the output is instantiated, every out-of-domain value per documented field raises ValueError and boundary values are accepted; pairs the predicate judges compatible (version negotiated per RFC 8446 4.2.1, suite by IANA name, group, signature scheme usable with the server key, key sizes) complete a live handshake. Known finding F10 (server commits to a version without workable suite) is reported.",
     "The predicate answers 'unsure' (not judged) for configurations whose meaning the documentation leaves open (1.3 inside min/max but not in versions, maxVersion not in versions, server preferring an older version, defaultCurve outside eccCurves).",
     "DESIGN.md section 3, C19")
+CHECKS["C20"] = (
+    "exploration",
+    "runtime monitoring: live handshakes forced to every (suite id, version) cell with a wire monitor for the key exchange and independent decryption of captured application records under harness-derived keys",
+    "Held on the cells observed: for every suite id in ietfNames x version x EtM x data-initiating role, when the handshake completes the plaintext wire shows the key exchange the IANA name denotes (ServerKeyExchange kind and signedness, ClientKeyExchange form, certificate presence and key type), every captured application record decrypts and verifies under keys the harness derives from the master secret and randoms (or the TLS 1.3 traffic secret) with the PRF hash, key length, nonce construction, MAC and tag length denoted by the name, record expansion and accessor names agree, and no suite is negotiated in a version that does not define it; the id->name table is cross-checked against OpenSSL's.",
+    "ECC suites in SSLv3 recorded, not judged; suites defined but never negotiable (DHE_DSS CBC SHA256) reported, not judged; draft-00 ChaCha suites are not IANA-registered.",
+    "DESIGN.md section 3, C20")
